@@ -63,6 +63,24 @@ theorem ds9Name_image {f : Frame} {fn : FName} (h : f.ds9Name = some fn) :
     decide (fn = .image) = decide (f = .image) ∧ fn.frame = f := by
   cases f <;> simp [Frame.ds9Name] at h <;> subst h <;> simp [FName.frame]
 
+/-- the shape word fixed by the arity is the one the geometry reports. -/
+theorem finalShape_of_geometry {pix : Bool} {sh : DShape} {ps : List ℚ} {rs : RShape} {cls : Shape}
+    {coords : List (ℚ × ℚ)} {nums : List ℚ} (h : geometry pix sh ps = .ok (rs, cls, coords, nums)) :
+    finalShape sh ps = some rs := by
+  unfold geometry at h
+  simp only at h
+  split at h
+  all_goals first
+    | (split at h
+       · simp only [Except.ok.injEq, Prod.mk.injEq] at h
+         obtain ⟨rfl, _⟩ := h
+         rfl
+       · simp at h)
+    | (simp only [Except.ok.injEq, Prod.mk.injEq] at h
+       obtain ⟨rfl, _⟩ := h
+       rfl)
+    | simp at h
+
 /-- what a successful `makeRegion` returned. -/
 theorem makeRegion_ok {fn : FName} {sh : DShape} {ps : List ℚ} {raw : Dict} {r' : Region}
     (h : makeRegion fn sh ps raw = .ok r') :
@@ -75,29 +93,37 @@ theorem makeRegion_ok {fn : FName} {sh : DShape} {ps : List ℚ} {raw : Dict} {r
       r'.vis = toRegionVisual vis := by
   unfold makeRegion at h
   split at h
-  · simp at h
-  · rename_i rs cls coords nums hg
+  · split at h <;> simp at h
+  · rename_i rs hfs
     split at h
     · simp at h
     · rename_i vis hv
-      simp only at h
-      by_cases ht : rs = RShape.text
-      · simp only [if_pos ht] at h
-        split at h
-        · simp at h
-        · split at h
+      split at h
+      · simp at h
+      · rename_i rs' cls coords nums hg
+        have hrs : rs' = rs := by
+          have := finalShape_of_geometry hg
+          rw [hfs] at this
+          simpa using this.symm
+        subst hrs
+        simp only at h
+        by_cases ht : rs' = RShape.text
+        · simp only [if_pos ht] at h
+          split at h
           · simp at h
-          · simp only [Except.ok.injEq] at h
-            subst h
-            exact ⟨rs, cls, coords, nums, vis, hg, hv, rfl, rfl, rfl, rfl, by simp [ht], by simp [ht], rfl⟩
-      · simp only [if_neg ht] at h
-        split at h
-        · simp at h
-        · split at h
+          · split at h
+            · simp at h
+            · simp only [Except.ok.injEq] at h
+              subst h
+              exact ⟨rs', cls, coords, nums, vis, hg, hv, rfl, rfl, rfl, rfl, by simp [ht], by simp [ht], rfl⟩
+        · simp only [if_neg ht] at h
+          split at h
           · simp at h
-          · simp only [Except.ok.injEq] at h
-            subst h
-            exact ⟨rs, cls, coords, nums, vis, hg, hv, rfl, rfl, rfl, rfl, by simp [ht], by simp [ht], rfl⟩
+          · split at h
+            · simp at h
+            · simp only [Except.ok.injEq] at h
+              subst h
+              exact ⟨rs', cls, coords, nums, vis, hg, hv, rfl, rfl, rfl, rfl, by simp [ht], by simp [ht], rfl⟩
 
 /-- the meta part of `_split_raw_metadata` keeps every key that is neither visual nor unsupported. -/
 theorem get_splitRaw_meta (raw : Dict) (k : Key) (h1 : k ∉ unsupportedMeta) (h2 : k ∉ readerVisualKeys) :
